@@ -4872,6 +4872,18 @@ GRIgetaid(ri_info_t *ri_ptr, int acc_perm)
     gr_ptr      = ri_ptr->gr_ptr;
     hdf_file_id = gr_ptr->hdf_file_id;
 
+    /* A file opened read-only grants no write access to any kind of image element (the
+       compressed-raster and compression drivers below do not pass through Hstartaccess, which
+       is where this is refused otherwise) */
+    if (acc_perm & DFACC_WRITE) {
+        filerec_t *file_rec = HAfile_object(hdf_file_id);
+
+        if (BADFREC(file_rec))
+            HGOTO_ERROR(DFE_ARGS, FAIL);
+        if (!(file_rec->access & DFACC_WRITE))
+            HGOTO_ERROR(DFE_DENIED, FAIL);
+    }
+
     /* everybody gets read permission */
     acc_perm |= DFACC_READ;
 
